@@ -190,13 +190,13 @@ func (w *icsWorld) apply(op kernel.Op) {
 
 var icsAmounts = []int64{1, 50, 1000, 123456}
 
-func (w *icsWorld) balances() (voucherUser, voucherModule sdk.Int, tokenUser *big.Int) {
+func (w *icsWorld) balances(who sdk.AccAddress) (voucherUser, voucherModule sdk.Int, tokenUser *big.Int) {
 	ctx := w.b.GetContext()
-	voucherUser = w.bApp.BankKeeper.GetBalance(ctx, w.userB, w.voucher).Amount
+	voucherUser = w.bApp.BankKeeper.GetBalance(ctx, who, w.voucher).Amount
 	voucherModule = w.bApp.BankKeeper.GetBalance(ctx, authtypes.NewModuleAddress(aggregatetypes.ModuleName), w.voucher).Amount
 	tokenUser = new(big.Int)
 	if p, ok := w.pair(); ok {
-		res, err := w.bApp.AggregateKeeper.CallEVM(ctx, erc20ABI, aggregatetypes.ModuleAddress, common.HexToAddress(p.ERC20Address), "balanceOf", common.BytesToAddress(w.userB))
+		res, err := w.bApp.AggregateKeeper.CallEVM(ctx, erc20ABI, aggregatetypes.ModuleAddress, common.HexToAddress(p.ERC20Address), "balanceOf", common.BytesToAddress(who))
 		if err == nil {
 			if out, err := erc20ABI.Unpack("balanceOf", res.Ret); err == nil && len(out) == 1 {
 				tokenUser = out[0].(*big.Int)
@@ -231,12 +231,16 @@ func (w *icsWorld) transfer(op kernel.Op) {
 		w.rec.HarnessFail("no packet in transfer events")
 		return
 	}
-	w.receive(packet, amt, kind, receiver == w.userB.String())
+	var who sdk.AccAddress
+	if acc, err := sdk.AccAddressFromBech32(receiver); err == nil {
+		who = acc
+	}
+	w.receive(packet, amt, kind, who)
 }
 
 // back: B returns vouchers to A (burn on B), so that a later transfer exercises "returning native coins" on A.
 func (w *icsWorld) back(op kernel.Op) {
-	v, _, _ := w.balances()
+	v, _, _ := w.balances(w.userB)
 	if !v.IsPositive() {
 		return
 	}
@@ -261,7 +265,10 @@ func (w *icsWorld) back(op kernel.Op) {
 	w.rec.Probe("ics20.returned_to_source")
 }
 
-func (w *icsWorld) receive(packet channeltypes.Packet, amt sdk.Int, kind string, toUser bool) {
+func (w *icsWorld) receive(packet channeltypes.Packet, amt sdk.Int, kind string, who sdk.AccAddress) {
+	if who == nil {
+		who = w.userB
+	}
 	if err := w.path.EndpointB.UpdateClient(); err != nil {
 		w.rec.HarnessFail("update client: " + err.Error())
 		return
@@ -270,7 +277,7 @@ func (w *icsWorld) receive(packet channeltypes.Packet, amt sdk.Int, kind string,
 	w.fix()
 	cctx, _ := w.b.GetContext().CacheContext()
 	wantAck := ibctransfer.NewIBCModule(w.bApp.IBCTransferKeeper).OnRecvPacket(cctx, packet, w.userB)
-	preV, preM, preT := w.balances()
+	preV, preM, preT := w.balances(who)
 	// real MsgRecvPacket with a real proof through DeliverTx
 	packetKey := fmt.Sprintf("commitments/ports/%s/channels/%s/sequences/%d", packet.GetSourcePort(), packet.GetSourceChannel(), packet.GetSequence())
 	proof, proofHeight := w.path.EndpointA.QueryProof([]byte(packetKey))
@@ -283,7 +290,7 @@ func (w *icsWorld) receive(packet channeltypes.Packet, amt sdk.Int, kind string,
 	}
 	_ = w.path.EndpointA.UpdateClient()
 	w.fix()
-	postV, postM, postT := w.balances()
+	postV, postM, postT := w.balances(who)
 	stored, found := w.bApp.IBCKeeper.ChannelKeeper.GetPacketAcknowledgement(w.b.GetContext(), packet.GetDestPort(), packet.GetDestChannel(), packet.GetSequence())
 	w.rec.Sched(fmt.Sprintf("recv:%s:reg=%v:on=%v:agg=%v:ack=%v", kind, w.registered, w.pairOn, w.aggOn, wantAck != nil && wantAck.Success()))
 	w.rec.Probe("ics20.recv." + kind)
@@ -311,8 +318,8 @@ func (w *icsWorld) receive(packet channeltypes.Packet, amt sdk.Int, kind string,
 		}
 		return
 	}
-	if !toUser {
-		return
+	if who.Equals(authtypes.NewModuleAddress(aggregatetypes.ModuleName)) {
+		return // receiver and escrow account coincide
 	}
 	// atomic conversion: either +x tokens and +x escrowed vouchers, or +x vouchers and no token change
 	dV, dM, dT := postV.Sub(preV), postM.Sub(preM), new(big.Int).Sub(postT, preT)
